@@ -75,8 +75,10 @@ func inKnownClass(c Case) bool {
 		if f.Render(buf) != nil {
 			return nil
 		}
-		af, err := parser.ParseFile(token.NewFileSet(), "", buf.Bytes(), 0)
-		if err == nil && knownfind.GofmtStripsGenericLitParens(af) {
+		if af, err := parser.ParseFile(token.NewFileSet(), "", buf.Bytes(), 0); err == nil && knownfind.GofmtStripsGenericLitParens(af) {
+			known = true
+		}
+		if knownfind.GofmtBreaks(buf.Bytes()) {
 			known = true
 		}
 		return nil
